@@ -3,13 +3,13 @@
 using namespace vf;
 
 namespace {
-enum PK { START_TASK = 0, START_FUNCTOR, CLEAR, DRAIN, STOP, GETTERS, OWNER_YIELD, ADVANCE_TIME, UPDATE };
+enum PK { START_TASK = 0, START_FUNCTOR, CLEAR, DRAIN, STOP, GETTERS, OWNER_YIELD, ADVANCE_TIME, UPDATE, START_BURST };
 
 Register r07("C07", [](Tier t) {
     int n = t == THOROUGH ? 20 : 10, sl = t == THOROUGH ? 240 : 120;
     // h[0]: max thread count - 1 (0..3, thorough 0..5)
-    auto ops = genOps({{START_TASK, 10, 0, 2, 0}, {START_FUNCTOR, 3, 0, 2, 0}, {CLEAR, 3, 0, 0, 0}, {DRAIN, 3, 0, 0, 0},
-                       {STOP, 2, 0, 0, 0}, {GETTERS, 1, 0, 0, 0}, {OWNER_YIELD, 3, 0, 0, 0}}, n);
+    auto ops = genOps({{START_TASK, 10, 0, 2, 0}, {START_FUNCTOR, 3, 0, 2, 0}, {CLEAR, 3, 0, 0, 0}, {DRAIN, 4, 0, 0, 0},
+                       {STOP, 2, 0, 0, 0}, {GETTERS, 1, 0, 0, 0}, {OWNER_YIELD, 3, 0, 0, 0}, {START_BURST, 1, 0, 5, 1}}, n);
     return rc::gen::weightedOneOf<Case>({{4, genCase("C07", genHeader({{0, t == THOROUGH ? 5 : 3}, {0, 0}, {0, 0}}), ops, genSched(sl))},
                                          {1, genCase("C07", genHeader({{0, t == THOROUGH ? 5 : 3}, {0, 0}, {1, 1}}), ops, genSchedPCT())}});
 });
